@@ -42,6 +42,7 @@ for _p in range(1, 21):
     ROUND1["R4-%s-1" % _k] = ("caught", "")
     ROUND1["R5-%s-1" % _k] = ("caught", "")
     ROUND1["R6-%s-1" % _k] = ("caught", "")
+    ROUND1["R7-%s-1" % _k] = ("caught", "")
 ROUND1.update({
  # third batch: first evaluated against the redesigned checker of DESIGN §10
  "R3-C07-1": ("missed", ""), "R3-C08-1": ("missed", ""), "R3-C09-1": ("missed", ""),
@@ -52,6 +53,14 @@ ROUND1.update({
  "R4-C13-1": ("caught (as undecided)", "C13.R5: 0/0 on a degenerate segment was ⊤ in the symbolic domain"),
  "R4-C17-1": ("caught (as undecided)", "C17.R1/R2: the integer fast path is not a float formatting the model knows; the defect itself (int64 overflow above 2^63) is a range matter"),
  "R4-C19-1": ("missed", "(C12.R4 reports it: the change is in the R-tree helper that C12 anchors; C19's model network is too small for that helper's pruning to run)"),
+})
+ROUND1.update({
+ # seventh batch: 'break the least obvious clause of the statement'; first evaluated against the checker after BN5 (DESIGN §11.13)
+ "R7-C04-1": ("caught (as undecided)", "C04.R1: the changed no-area test multiplies side lengths, which the order domain cannot follow"),
+ "R7-C06-1": ("caught (as undecided)", "C06.R5: the package defines MarshalJSON; a hand-written number formatter is outside what the rules establish"),
+ "R7-C17-1": ("caught (as undecided)", "C17.R1/R2: the whole-number fast path branches on math.Trunc of a symbolic ordinate"),
+ "R7-C07-1": ("missed", "the hex decoder was only modelled on well-formed texts and one non-hexadecimal text of ordinary length"),
+ "R7-C13-1": ("missed", "C13.R4 compared members under constant deviation answers, under which the simplicity test is never asked"),
 })
 STRENGTHENED = {
  "C01-1": "C01.R4 now covers Difference/Union/XOr/Intersection of *Bounds with an opaque polygon and answers every shape query (Within, point-in-polygon) in every possible way: a shortcut result must follow from the box relation alone",
@@ -143,6 +152,10 @@ STRENGTHENED.update({
  "R6-C12-1": "C11 model (premise C12.R5): a history of points in a column and a row, whose envelopes have no area, with a delete at the far end of the column",
  "R4-C19-1": "premise rule C19.R6: C12's nearest-neighbour models are re-established under C19, whose routes start and end at the nodes the index returns",
 })
+STRENGTHENED.update({
+ "R7-C07-1": "new C07.R5: hex.Decode interpreted on the empty text, one-character texts, texts that are not hexadecimal or of odd length, every truncation of the text of a Point message and texts with trailing characters — an error each time, no panic",
+ "R7-C13-1": "C13.R4 gained a third answer pattern (one vertex may be skipped, two may not) under which the simplicity test is asked, and requires that a question about a shortcut inside member i is asked of member i's own curves only",
+})
 NOT_CAUGHT = {
  "R2-C08-2": "still missed: spherical transverse Mercator takes the hemisphere from sign(y) instead of from the foot-point latitude — formula-level",
 }
@@ -203,11 +216,13 @@ def main():
         r4 = [m for m in rows if m['id'].startswith('R4-')]
         r5 = [m for m in rows if m['id'].startswith('R5-')]
         r6 = [m for m in rows if m['id'].startswith('R6-')]
+        r7 = [m for m in rows if m['id'].startswith('R7-')]
         for nm, rr in (("first batch", r1), ("second batch (written after the first round of strengthening, so it measures generalisation)", r2),
                        ("third batch (one per property, first evaluated against the redesigned checker of DESIGN §10)", r3),
                        ("fourth batch (one per property, 'not the first idea that comes to mind'; first evaluated against the checker of DESIGN §11)", r4),
                        ("fifth batch (one per property, 'a well-meant improvement whose author did not think of an unusual but legal input'; first evaluated after the BN4 corrections, DESIGN §11.7)", r5),
-                       ("sixth batch (one per property, 'in a helper or a caller: the break comes from the interplay of two places'; first evaluated after the mechanical audits, DESIGN §11.11)", r6)):
+                       ("sixth batch (one per property, 'in a helper or a caller: the break comes from the interplay of two places'; first evaluated after the mechanical audits, DESIGN §11.11)", r6),
+                       ("seventh batch (one per property, 'break the least obvious clause of the statement while the headline behaviour stays right'; first evaluated after BN5, DESIGN §11.13)", r7)):
             a1 = sum(1 for m in rr if m['first_evaluation']['verdict'].startswith('caught'))
             a2 = sum(1 for m in rr if m['current']['verdict'] == 'caught')
             f.write(f"\n{nm}: first evaluation {a1}/{len(rr)} reported, now {a2}/{len(rr)}.\n")
